@@ -149,3 +149,32 @@ pub fn runtime() -> tokio::runtime::Runtime {
         .build()
         .expect("tokio runtime")
 }
+
+/// The real mithril client (real `HttpFileDownloader`, `file://` locations are read from disk),
+/// built through the public `ClientBuilder`. The aggregator endpoint is never contacted by the
+/// Cardano database download / verification functions.  Temporary directories of the client go
+/// below `tmp`.  The only deviation from the default wiring: the retry policy of the downloader is
+/// `never` (the default waits 2 x 5 s before giving up on a failing location).
+pub fn build_client(tmp: &Path, ancillary_verification_key: Option<String>) -> mithril_client::Client {
+    std::fs::create_dir_all(tmp).unwrap();
+    // TimestampTempDirectoryProvider uses std::env::temp_dir()
+    unsafe { std::env::set_var("TMPDIR", tmp) };
+    let genesis_vk = mithril_common::test::double::fake_keys::genesis_verification_key()[0];
+    mithril_client::ClientBuilder::new(mithril_client::AggregatorDiscoveryType::Url("http://127.0.0.1:9/aggregator".to_string()))
+        .set_genesis_verification_key(mithril_client::GenesisVerificationKey::JsonHex(genesis_vk.to_string()))
+        .set_ancillary_verification_key(ancillary_verification_key)
+        .with_http_file_downloader(std::sync::Arc::new(mithril_client::file_downloader::RetryDownloader::new(
+            std::sync::Arc::new(
+                mithril_client::file_downloader::HttpFileDownloader::new(mithril_client::feedback::FeedbackSender::new(&[]), discard_logger())
+                    .expect("http file downloader"),
+            ),
+            mithril_client::file_downloader::FileDownloadRetryPolicy::never(),
+        )))
+        .with_logger(discard_logger())
+        .build()
+        .expect("client")
+}
+
+pub fn file_uri(p: &Path) -> String {
+    format!("file://{}", p.to_string_lossy())
+}
